@@ -127,12 +127,12 @@ Proof.
 Qed.
 
 Lemma prepare_data_inv fsize avail fr o data : prepare_data fsize avail fr o = Ok data ->
-  let r := o_cb o (avail - (zlen fr + 10)) fsize in
+  let r := o_cb o (avail - (zlen fr + 10)) (Z.max 0 (fsize - 0 - avail)) in
   (o_v2 o = 3 \/ o_v2 o = 4) /\ 0 <= r /\ zlen fr + r < 2 ^ 28 /\
   exists bs, to_str (zlen fr + r) 7 true 4 4 = Ok bs /\ zlen bs = 4 /\ forallb is_7bit bs = true /\
     syncsafe4 bs = zlen fr + r /\ data = render_tag (o_v2 o) bs fr r.
 Proof.
-  intros H r. unfold prepare_data in H.
+  intros H r. unfold prepare_data in H. cbv zeta in H.
   destruct ((o_v2 o =? 3) || (o_v2 o =? 4)) eqn:V; cbn [negb] in H; [|discriminate].
   fold r in H. destruct (r <? 0) eqn:R; [discriminate|].
   replace (zlen fr + 10 + r - 10) with (zlen fr + r) in H by lia.
@@ -145,11 +145,11 @@ Proof.
 Qed.
 
 Lemma prepare_data_ok fsize avail fr o :
-  let r := o_cb o (avail - (zlen fr + 10)) fsize in
+  let r := o_cb o (avail - (zlen fr + 10)) (Z.max 0 (fsize - 0 - avail)) in
   (o_v2 o = 3 \/ o_v2 o = 4) -> 0 <= r -> zlen fr + r < 2 ^ 28 ->
   exists data, prepare_data fsize avail fr o = Ok data.
 Proof.
-  intros r V R W. unfold prepare_data.
+  intros r V R W. unfold prepare_data. cbv zeta.
   assert (V' : (o_v2 o =? 3) || (o_v2 o =? 4) = true) by (destruct V as [V|V]; rewrite V; reflexivity).
   rewrite V'. cbn [negb]. fold r. bset (r <? 0) false.
   replace (zlen fr + 10 + r - 10) with (zlen fr + r) by lia.
@@ -163,12 +163,13 @@ Proof.
   change (zlen M_ID3) with 3. change (zlen [v2; 0; 0]) with 3. lia.
 Qed.
 
-(* the ID3v2 half of save: the new tag followed by everything that was behind the old one *)
-Lemma save_v2_shape f s fr o g : id3f_parse f = Ok s -> id3f_save_v2 f fr o = Ok g ->
-  let r := o_cb o (tag_size s - (zlen fr + 10)) (zlen f) in
+(* the ID3v2 half of save: the new tag followed by everything that was behind the old one;
+   info.size handed to the callback = the bytes behind the old tag *)
+Lemma save_v2_shape f s fr o g n : id3f_parse f = Ok s -> id3f_save_v2 f fr o = Ok (g, n) ->
+  let r := o_cb o (tag_size s - (zlen fr + 10)) (zlen f - tag_size s) in
   (o_v2 o = 3 \/ o_v2 o = 4) /\ 0 <= r /\ zlen fr + r < 2 ^ 28 /\
   exists bs, to_str (zlen fr + r) 7 true 4 4 = Ok bs /\ zlen bs = 4 /\ forallb is_7bit bs = true /\
-    syncsafe4 bs = zlen fr + r /\
+    syncsafe4 bs = zlen fr + r /\ n = 10 + zlen fr + r /\
     g = splice f 0 (tag_size s) (render_tag (o_v2 o) bs fr r) /\
     g = render_tag (o_v2 o) bs fr r ++ i_mid s ++ optb (i_v1 s).
 Proof.
@@ -178,41 +179,48 @@ Proof.
   { unfold tag_size. destruct (i_tag s); reflexivity. }
   rewrite O in H.
   destruct (prepare_data (zlen f) (tag_size s) fr o) as [data|] eqn:E; [|discriminate].
-  destruct (prepare_data_inv _ _ _ _ _ E) as (V & R & W & bs & T & L & S7 & SS & Dd). fold r in R, W, T, SS, Dd.
-  assert (Lt : (zlen f <? tag_size s) = false) by lia. rewrite Lt in H. cbn [andb] in H. inversion H; subst g; clear H.
+  destruct (prepare_data_inv _ _ _ _ _ E) as (V & R & W & bs & T & L & S7 & SS & Dd).
+  replace (Z.max 0 (zlen f - 0 - tag_size s)) with (zlen f - tag_size s) in * by lia.
+  fold r in R, W, T, SS, Dd.
+  assert (Lt : (zlen f <? tag_size s) = false) by lia. rewrite Lt in H. cbn [andb] in H.
+  assert (Eg : g = splice f 0 (tag_size s) data) by congruence.
+  assert (En : n = zlen data) by congruence. clear H.
   repeat apply conj; try assumption. exists bs. repeat apply conj; try assumption.
-  - rewrite Dd. reflexivity.
-  - unfold splice. rewrite ztake_0. cbn [app]. rewrite Z.add_0_l. rewrite D, Dd. reflexivity.
+  - rewrite En, Dd. apply render_tag_len; assumption.
+  - rewrite Eg, Dd. reflexivity.
+  - rewrite Eg. unfold splice. rewrite ztake_0. cbn [app]. rewrite Z.add_0_l. rewrite D, Dd. reflexivity.
 Qed.
 
 (* a save on a strictly parsed file succeeds whenever the callback result is usable *)
 Lemma save_v2_ok f s fr o : id3f_parse f = Ok s ->
-  let r := o_cb o (tag_size s - (zlen fr + 10)) (zlen f) in
+  let r := o_cb o (tag_size s - (zlen fr + 10)) (zlen f - tag_size s) in
   (o_v2 o = 3 \/ o_v2 o = 4) -> 0 <= r -> zlen fr + r < 2 ^ 28 ->
-  exists g, id3f_save_v2 f fr o = Ok g.
+  exists g n, id3f_save_v2 f fr o = Ok (g, n).
 Proof.
   intros P r V R W. destruct (parse_dec _ _ P) as (PT & B & _).
   unfold id3f_save_v2. rewrite (header_of_parse _ _ _ PT).
   assert (O : old_size_of (option_map t_size (i_tag s)) = tag_size s).
   { unfold tag_size. destruct (i_tag s); reflexivity. }
-  rewrite O. destruct (prepare_data_ok (zlen f) (tag_size s) fr o V R W) as [data E]. rewrite E.
-  bset (zlen f <? tag_size s) false. cbn [andb]. eexists. reflexivity.
+  rewrite O.
+  assert (Em : Z.max 0 (zlen f - 0 - tag_size s) = zlen f - tag_size s) by lia.
+  destruct (prepare_data_ok (zlen f) (tag_size s) fr o V) as [data E]; try (rewrite Em; assumption).
+  rewrite E. assert (Lt : (zlen f <? tag_size s) = false) by lia. rewrite Lt. cbn [andb]. eexists. eexists. reflexivity.
 Qed.
 
-(* the ID3v1 half, on a file whose payload keeps the search window away from the ID3v2 tag *)
+(* the ID3v1 half: the search may not begin inside the new tag a; payload of any length *)
 Lemma save_v1_shape a mid v1 mode vb :
-  131 <= zlen mid -> find_id3v1 mid = None ->
+  find_id3v1 0 mid = None ->
   (forall v, v1 = Some v -> v1_fits mid v = true) ->
   ((mode =? 1) || (mode =? 2) = true -> zlen vb = 128) ->
-  save_v1 (a ++ mid ++ optb v1) mode vb = a ++ mid ++ optb (v1_after mode vb v1).
+  save_v1 (a ++ mid ++ optb v1) mode vb (zlen a) = a ++ mid ++ optb (v1_after mode vb v1).
 Proof.
-  intros Lm Fm Fv Hvb. unfold save_v1. pose proof (zlen_nonneg a).
+  intros Fm Fv Hvb. unfold save_v1. pose proof (zlen_nonneg a). pose proof (zlen_nonneg mid).
   destruct v1 as [v|]; cbn [optb v1_after].
   - specialize (Fv v eq_refl). unfold v1_fits in Fv.
-    apply andb_true_iff in Fv as [Fv F3]. apply andb_true_iff in Fv as [F1 F2].
+    apply andb_true_iff in Fv as [Fv F3]. apply andb_true_iff in Fv as [Fv F2]. apply andb_true_iff in Fv as [F0 F1].
     apply Z.eqb_eq in F1.
-    rewrite find_id3v1_app by (rewrite zlen_app; pose proof (zlen_nonneg v); lia).
-    destruct (find_id3v1 (mid ++ v)) as [n|]; [|discriminate]. cbn [is_some128] in F3. apply Z.eqb_eq in F3. subst n.
+    rewrite find_id3v1_app by (try rewrite zlen_app; lia).
+    destruct (find_id3v1 0 (mid ++ v)) as [n|]; [|discriminate]. cbn [is_some128] in F3. apply Z.eqb_eq in F3. subst n.
     assert (T : ztake (zlen (a ++ mid ++ v) - 128) (a ++ mid ++ v) = a ++ mid).
     { rewrite app_assoc. rewrite zlen_app, F1. replace (zlen (a ++ mid) + 128 - 128) with (zlen (a ++ mid)) by lia.
       apply ztake_app_exact. }
@@ -220,7 +228,7 @@ Proof.
     + specialize (Hvb eq_refl). unfold patch. rewrite T.
       rewrite zdrop_all by (rewrite !zlen_app in *; lia). rewrite app_nil_r. rewrite <- app_assoc. reflexivity.
     + rewrite T. rewrite app_nil_r. reflexivity.
-  - rewrite app_nil_r. rewrite find_id3v1_app by lia. rewrite Fm.
+  - rewrite app_nil_r. rewrite find_id3v1_prefix by exact Fm.
     destruct (mode =? 2) eqn:M; [rewrite <- app_assoc; reflexivity|rewrite app_nil_r; reflexivity].
 Qed.
 
@@ -268,34 +276,33 @@ Proof.
   rewrite <- (render_tag_len v2 bs fr r L R). rewrite zdrop_app_exact.
   destruct v1 as [v|]; cbn [optb].
   - specialize (Fv v eq_refl). unfold v1_fits in Fv.
-    apply andb_true_iff in Fv as [Fv _]. apply andb_true_iff in Fv as [F1 F2]. apply Z.eqb_eq in F1.
-    rewrite F2. rewrite zlen_app, F1. replace (zlen mid + 128 - 128) with (zlen mid) by lia.
+    apply andb_true_iff in Fv as [Fv _]. apply andb_true_iff in Fv as [Fv F2]. apply andb_true_iff in Fv as [_ F1].
+    apply Z.eqb_eq in F1. rewrite F2. rewrite zlen_app, F1. replace (zlen mid + 128 - 128) with (zlen mid) by lia.
     rewrite ztake_app_exact, zdrop_app_exact. reflexivity.
   - rewrite app_nil_r. rewrite SM. reflexivity.
 Qed.
 
 (* ------------------------------------------------------------------ well-formedness unpacked *)
 Lemma wf_inv f : id3f_wf f = true -> exists s, id3f_parse f = Ok s /\
-  131 <= zlen (i_mid s) /\ starts_with M_ID3 (i_mid s) = false /\ strict_v1 (i_mid s) = false /\
-  find_id3v1 (i_mid s) = None /\ (forall v, i_v1 s = Some v -> v1_fits (i_mid s) v = true).
+  starts_with M_ID3 (i_mid s) = false /\ strict_v1 (i_mid s) = false /\
+  find_id3v1 0 (i_mid s) = None /\ (forall v, i_v1 s = Some v -> v1_fits (i_mid s) v = true).
 Proof.
   unfold id3f_wf. destruct (id3f_parse f) as [s|]; [|discriminate]. intros H. exists s.
   unfold payload_ok in H. repeat (apply andb_true_iff in H as [H ?]).
   split; [reflexivity|]. repeat apply conj.
-  - lia.
   - destruct (starts_with M_ID3 (i_mid s)); [discriminate|reflexivity].
   - destruct (strict_v1 (i_mid s)); [discriminate|reflexivity].
-  - destruct (find_id3v1 (i_mid s)); [discriminate|reflexivity].
+  - destruct (find_id3v1 0 (i_mid s)); [discriminate|reflexivity].
   - intros v E. rewrite E in *. assumption.
 Qed.
 
 Lemma wf_intro f s : id3f_parse f = Ok s ->
-  131 <= zlen (i_mid s) -> starts_with M_ID3 (i_mid s) = false -> strict_v1 (i_mid s) = false ->
-  find_id3v1 (i_mid s) = None -> (forall v, i_v1 s = Some v -> v1_fits (i_mid s) v = true) ->
+  starts_with M_ID3 (i_mid s) = false -> strict_v1 (i_mid s) = false ->
+  find_id3v1 0 (i_mid s) = None -> (forall v, i_v1 s = Some v -> v1_fits (i_mid s) v = true) ->
   id3f_wf f = true.
 Proof.
-  intros P A B C D E. unfold id3f_wf. rewrite P. unfold payload_ok.
-  rewrite B, C, D. cbn [negb is_none]. bset (131 <=? zlen (i_mid s)) true. cbn [andb].
+  intros P B C D E. unfold id3f_wf. rewrite P. unfold payload_ok.
+  rewrite B, C, D. cbn [negb is_none andb].
   destruct (i_v1 s) as [v|]; [apply E; reflexivity|reflexivity].
 Qed.
 
@@ -313,50 +320,67 @@ Proof.
   - destruct (o_v1 o =? 2) eqn:M; [|discriminate]. inversion E; subst v. apply Hh. apply orb_true_r.
 Qed.
 
+Lemma v1_fits_len mid v : v1_fits mid v = true -> zlen v = 128 /\ 3 <= zlen mid.
+Proof.
+  unfold v1_fits. intros H. apply andb_true_iff in H as [H _]. apply andb_true_iff in H as [H _].
+  apply andb_true_iff in H as [A B]. lia.
+Qed.
+
 (* THE shape theorem of save on a well-formed file *)
 Lemma save_shape f fr o f' : id3f_wf f = true -> id3f_save f fr o = Ok f' ->
   exists s, id3f_parse f = Ok s /\
-  let r := o_cb o (tag_size s - (zlen fr + 10)) (zlen f) in
+  let r := o_cb o (tag_size s - (zlen fr + 10)) (zlen f - tag_size s) in
   (o_v2 o = 3 \/ o_v2 o = 4) /\ 0 <= r /\ zlen fr + r < 2 ^ 28 /\
   exists bs, to_str (zlen fr + r) 7 true 4 4 = Ok bs /\ zlen bs = 4 /\ forallb is_7bit bs = true /\
     syncsafe4 bs = zlen fr + r /\
     (v1_hyp (i_mid s) o ->
      f' = render_tag (o_v2 o) bs fr r ++ i_mid s ++ optb (v1_after (o_v1 o) (o_v1bytes o) (i_v1 s))).
 Proof.
-  intros WF H. destruct (wf_inv _ WF) as (s & P & Lm & NI & SM & Fm & Fv). exists s. split; [exact P|].
-  unfold id3f_save in H. destruct (id3f_save_v2 f fr o) as [g|] eqn:E; [|discriminate].
-  inversion H; subst f'; clear H.
-  destruct (save_v2_shape _ _ _ _ _ P E) as (V & R & W & bs & T & L & S7 & SS & _ & G).
+  intros WF H. destruct (wf_inv _ WF) as (s & P & NI & SM & Fm & Fv). exists s. split; [exact P|].
+  unfold id3f_save in H. destruct (id3f_save_v2 f fr o) as [[g n]|] eqn:E; [|discriminate].
+  assert (Ef : f' = save_v1 g (o_v1 o) (o_v1bytes o) n) by congruence. clear H.
+  destruct (save_v2_shape _ _ _ _ _ _ P E) as (V & R & W & bs & T & L & S7 & SS & En & _ & G).
   cbv zeta. repeat apply conj; try assumption. exists bs. repeat apply conj; try assumption.
-  intros Hh. rewrite G. apply save_v1_shape; try assumption.
-  intros M. specialize (Hh M). unfold v1_fits in Hh.
-  apply andb_true_iff in Hh as [Hh _]. apply andb_true_iff in Hh as [Hh _]. apply Z.eqb_eq in Hh. exact Hh.
+  intros Hh. rewrite Ef, G. rewrite En. rewrite <- (render_tag_len (o_v2 o) bs fr _ L R).
+  apply save_v1_shape; try assumption.
+  intros M. specialize (Hh M). apply v1_fits_len in Hh. lia.
 Qed.
 
 (* ------------------------------------------------------------------ delete *)
 Lemma delete_shape f : id3f_wf f = true -> exists s, id3f_parse f = Ok s /\ id3f_delete f = Ok (i_mid s).
 Proof.
-  intros WF. destruct (wf_inv _ WF) as (s & P & Lm & NI & SM & Fm & Fv). exists s. split; [exact P|].
+  intros WF. destruct (wf_inv _ WF) as (s & P & NI & SM & Fm & Fv). exists s. split; [exact P|].
   destruct (parse_dec _ _ P) as (PT & B & D & Ff & V1).
   set (T := ztake (tag_size s) f) in *.
   assert (LT : zlen T = tag_size s) by (subst T; rewrite zlen_ztake by lia; lia).
-  unfold id3f_delete.
-  assert (F1 : match find_id3v1 f with Some n => ztake (zlen f - n) f | None => f end = T ++ i_mid s).
-  { rewrite Ff at 1. destruct (i_v1 s) as [v|] eqn:EV; cbn [optb] in *.
-    - destruct V1 as [Lv _]. specialize (Fv v eq_refl). unfold v1_fits in Fv.
-      apply andb_true_iff in Fv as [_ F3].
-      rewrite find_id3v1_app by (rewrite zlen_app; lia).
-      destruct (find_id3v1 (i_mid s ++ v)) as [n|]; [|discriminate]. cbn [is_some128] in F3. apply Z.eqb_eq in F3. subst n.
+  unfold id3f_delete. pose proof (zlen_nonneg (i_mid s)) as Hm0. pose proof (zlen_nonneg T).
+  (* the end of the ID3v2 tag as delete computes it *)
+  assert (V2 : (if (zlen (ztake 10 f) =? 10) && starts_with M_ID3 (ztake 10 f)
+                then match bpi_of_bytes 7 true (zslice 6 10 (ztake 10 f)) with Ok v => Ok (v + 10) | Raise e => Raise e end
+                else Ok 0) = Ok (zlen T)).
+  { destruct (i_tag s) as [t|] eqn:ET.
+    - destruct (parse_tag_inv _ _ PT) as (S & L & Vv & F5 & S7 & Sz & Bd & _).
+      rewrite zlen_ztake by lia. bset (Z.min 10 (zlen f)) 10. rewrite starts_with_ztake by (cbn; lia). rewrite S.
+      change ((10 =? 10) && true) with true. cbv iota. rewrite zslice_ztake10, bpi_syncsafe by exact S7.
+      f_equal. unfold tag_size in LT. rewrite ET in LT. lia.
+    - apply parse_tag_none in PT. rewrite starts_with_ztake by (cbn; lia). rewrite PT. rewrite andb_false_r.
+      f_equal. unfold tag_size in LT. rewrite ET in LT. lia. }
+  rewrite V2. clear V2.
+  assert (F1 : match find_id3v1 (zlen T) f with Some n => ztake (zlen f - n) f | None => f end = T ++ i_mid s).
+  { destruct (i_v1 s) as [v|] eqn:EV; cbn [optb] in *.
+    - destruct V1 as [Lv _]. specialize (Fv v eq_refl). destruct (v1_fits_len _ _ Fv) as [_ L3].
+      unfold v1_fits in Fv. apply andb_true_iff in Fv as [_ F3].
+      rewrite Ff at 1. rewrite find_id3v1_app by (try rewrite zlen_app; lia).
+      destruct (find_id3v1 0 (i_mid s ++ v)) as [n|]; [|discriminate]. cbn [is_some128] in F3. apply Z.eqb_eq in F3. subst n.
       rewrite Ff. rewrite app_assoc. rewrite zlen_app, Lv.
       replace (zlen (T ++ i_mid s) + 128 - 128) with (zlen (T ++ i_mid s)) by lia. apply ztake_app_exact.
-    - rewrite app_nil_r in *. rewrite find_id3v1_app by lia. rewrite Fm. exact Ff. }
+    - rewrite app_nil_r in Ff. rewrite Ff at 1. rewrite find_id3v1_prefix by exact Fm. exact Ff. }
   rewrite F1. clear F1.
-  pose proof (zlen_nonneg T).
-  assert (L10 : zlen (ztake 10 (T ++ i_mid s)) = 10) by (rewrite zlen_ztake, zlen_app by lia; lia).
-  rewrite L10. change (negb (10 =? 10)) with false. cbv iota.
   destruct (i_tag s) as [t|] eqn:ET.
   - destruct (parse_tag_inv _ _ PT) as (S & L & Vv & F5 & S7 & Sz & Bd & _).
     unfold tag_size in *. rewrite ET in *.
+    assert (L10 : zlen (ztake 10 (T ++ i_mid s)) = 10) by (rewrite zlen_ztake, zlen_app by lia; lia).
+    rewrite L10. change (negb (10 =? 10)) with false. cbv iota.
     assert (E10 : ztake 10 (T ++ i_mid s) = ztake 10 f).
     { rewrite ztake_app_l by lia. subst T. rewrite ET. rewrite ztake_ztake. f_equal. lia. }
     rewrite E10. rewrite zslice_ztake10. rewrite bpi_syncsafe by exact S7.
@@ -368,6 +392,7 @@ Proof.
     replace (syncsafe4 (zslice 6 10 f) + 10) with (zlen T) by lia. apply zdrop_app_exact.
   - unfold tag_size in *. rewrite ET in *.
     assert (TN : T = []) by (subst T; rewrite ET; apply ztake_0). rewrite TN in *. cbn [app].
+    destruct (negb (zlen (ztake 10 (i_mid s)) =? 10)) eqn:L10; [reflexivity|].
     destruct (bpi_total (zslice 6 10 (ztake 10 (i_mid s)))) as [v Ev]. rewrite Ev.
     rewrite starts_with_ztake by (cbn; lia). rewrite NI. cbn [andb]. reflexivity.
 Qed.
